@@ -283,6 +283,125 @@ REPLIES = [b"HTTP/1.1 200 Connection established\r\n\r\n", b"HTTP/1.0 200 OK\r\n
            b"HTTP/1.1 500 Oops\r\n\r\n", b"HTTP/1.1 502 Bad Gateway\r\n\r\n", b"garbage\r\n\r\n", b"HTTP/1.1\r\n\r\n", b""]
 
 
+PROXY_A, PROXY_B = "http://proxy-a.example:3128", "http://proxy-b.example:3129"
+
+
+class HopPeer:
+    """Origin (or proxy, then origin) of one hop of a redirect chain: hop k < last answers 302 with the next URL, the last one 101."""
+
+    def __init__(self, is_proxy, location):
+        self.is_proxy, self.location = is_proxy, location
+        self.connect_line = None
+        self.mark = 0 if not is_proxy else None
+        self.done = False
+
+    def on_send(self, sock, data):
+        w = bytes(sock.written)
+        if self.mark is None:
+            if b"\r\n\r\n" in w:
+                self.connect_line = w.split(b"\r\n")[0].decode("latin-1")
+                self.mark = len(w)
+                sock.stream += b"HTTP/1.1 200 Connection established\r\n\r\n"
+            return
+        rest = w[self.mark:]
+        if not self.done and b"\r\n\r\n" in rest:
+            self.done = True
+            if self.location is not None:
+                sock.stream += b"HTTP/1.1 302 Found\r\nLocation: " + self.location.encode() + b"\r\nContent-Length: 0\r\n\r\n"
+            else:
+                sock.stream += HS.response_101(HS.parse_request(rest)["key"])
+
+
+def redirect_case(urls, envd, popt):
+    """connect(urls[0]) is redirected along urls[1:]; every hop is routed by the rule of ITS OWN scheme and host."""
+    from urllib.parse import urlparse
+    lib.reset_globals()
+    env.install_urandom("counter")
+    net = simnet.Net()
+    import socket as S
+    net.resolver = lambda host, port_: [(S.AF_INET, "198.51.100.%d" % (7 + len(host) % 50))]
+    hops = []
+    exempt = [h.strip() for h in envd.get("no_proxy", "").split(",") if h.strip()]
+    for u in urls:
+        pu = urlparse(u)
+        port = pu.port or (80 if pu.scheme == "ws" else 443)
+        via = None
+        if pu.hostname not in exempt:
+            if popt:
+                via = ("proxy-o.example", 3130)
+            else:
+                pe = envd.get("http_proxy" if pu.scheme == "ws" else "https_proxy")
+                if pe:
+                    via = (urlparse(pe).hostname, urlparse(pe).port)
+        hops.append({"host": pu.hostname, "port": port, "via": via})
+    peers = []
+
+    def peer_for(n_, s, a):
+        k = len(peers)
+        nxt = urls[k + 1] if k + 1 < len(urls) else None
+        p = HopPeer(a[1] in (3128, 3129, 3130), nxt)
+        peers.append(p)
+        return p
+
+    net.peer_for = peer_for
+    set_env(envd)
+    opts = {"http_proxy_host": "proxy-o.example", "http_proxy_port": 3130} if popt else {}
+    simnet.install(net)
+    try:
+        ws = lib.websocket.WebSocket()
+        try:
+            ws.connect(urls[0], **opts)
+            out = None
+        except Exception as e:
+            out = e
+    finally:
+        simnet.uninstall()
+        set_env({})
+    label = "redirect chain %s with environment %r%s" % (" -> ".join(urls), envd, " and a proxy option" if popt else "")
+    sig = {"kind": "redirect-hop-route", "schemes": "->".join(urlparse(u).scheme for u in urls), "same_host": len({h["host"] for h in hops}) == 1}
+    if out is not None:
+        if not isinstance(out, (lib.websocket.WebSocketException, OSError)):
+            return (dict(sig, kind="unexpected-exception", exc=type(out).__name__), "%s: connect() raised %s: %s" % (label, type(out).__name__, out))
+        return (dict(sig, kind="redirect-chain-failed"), "%s: connect() raised %r" % (label, out))
+    res = [(e[1], e[2]) for e in net.log if e[0] == "resolve"]
+    want = [h["via"] or (h["host"], h["port"]) for h in hops]
+    if res != want:
+        k = next((i for i, (a, b) in enumerate(zip(res, want)) if a != b), min(len(res), len(want)))
+        return (dict(sig, hop=k, via_proxy_wrongly=bool(k < len(res) and k < len(want) and hops[k]["via"] is None)),
+                "%s: hop %d went to %r, expected %r (all hops: %r, expected %r)" % (label, k + 1, res[k] if k < len(res) else None, want[k] if k < len(want) else None, res, want))
+    for k, (h, p) in enumerate(zip(hops, peers)):
+        if h["via"] is not None:
+            wl = "CONNECT %s:%d HTTP/1.1" % (h["host"], h["port"])
+            if p.connect_line != wl:
+                return (dict(sig, kind="redirect-hop-connect-line", hop=k), "%s: hop %d tunnel request %r, expected %r" % (label, k + 1, p.connect_line, wl))
+        wrapped = [w for w in net.wraps if w["sock"] == k]
+        if bool(wrapped) != (urlparse(urls[k]).scheme == "wss"):
+            return (dict(sig, kind="redirect-hop-tls", hop=k), "%s: hop %d TLS wrap=%r" % (label, k + 1, bool(wrapped)))
+    return None
+
+
+def redirect_cases():
+    out = []
+    for s1 in ("ws", "wss"):
+        for s2 in ("ws", "wss"):
+            for h2 in ("target.example", "other.example"):
+                for envset in ((), ("http_proxy",), ("https_proxy",), ("http_proxy", "https_proxy")):
+                    for npx in (None, "target.example", "other.example"):
+                        for popt in (False, True):
+                            envd = {}
+                            if "http_proxy" in envset:
+                                envd["http_proxy"] = PROXY_A
+                            if "https_proxy" in envset:
+                                envd["https_proxy"] = PROXY_B
+                            if npx:
+                                envd["no_proxy"] = npx
+                            urls = ["%s://target.example/a" % s1, "%s://%s/b" % (s2, h2)]
+                            out.append((urls, envd, popt))
+                            if s1 != s2 and h2 == "target.example" and not popt:
+                                out.append((urls + ["%s://target.example/c" % s1], envd, popt))
+    return out
+
+
 def tasks(tier, seed):
     ts = []
     H = names() + IPS
@@ -290,6 +409,7 @@ def tasks(tier, seed):
         ts.append({"part": "decide", "host": hi, "tier": tier, "name": "decide/%s" % H[hi]})
     ts.append({"part": "connect", "name": "connect"})
     ts.append({"part": "replies", "name": "replies"})
+    ts.append({"part": "redirect", "name": "redirect"})
     return ts
 
 
@@ -338,6 +458,11 @@ def run_task(desc):
                                     rec(guarded(connect_case, scheme, popt, frozenset(envset), ex, envurl=envurl, tport=tport),
                                         {"case": "connect", "args": [scheme, popt, sorted(envset), ex, None, envurl, tport]})
         res["samples"].append({"connect": "scheme x proxy option x 16 env subsets x exemption source x env credentials"})
+    elif desc["part"] == "redirect":
+        for urls, envd, popt in redirect_cases():
+            n += 1
+            rec(guarded(redirect_case, urls, envd, popt), {"case": "redirect", "args": [urls, envd, popt]})
+        res["samples"].append({"redirect_chains": n})
     else:
         for scheme in ("ws", "wss"):
             for popt in ("plain", "userpass"):
@@ -356,6 +481,8 @@ def run_task(desc):
 def replay(rep):
     if rep["case"] == "decide":
         f = decision_case(rep["host"], rep["np"], rep["src"])
+    elif rep["case"] == "redirect":
+        f = redirect_case(*rep["args"])
     else:
         a = rep["args"]
         kw = {"envurl": a[5], "tport": a[6] if len(a) > 6 else None}
